@@ -38,6 +38,7 @@ META = {
         "of an ackable message finishes, #ack calls == 1. distinct_nontrivial = distinct terminal per-message logs."
         " Fault-overlap family (mc/fault_overlap.py): message X suffers one fault out of {pre_execute/post_execute/post_save/on_error hook, sync or async ack, result backend} x {RuntimeError, CancelledError, TimeoutError}, backend failing once, body raise/CancelledError/timeout/no-result, malformed/unknown message, broker stream error, while the healthy message Y has suspension points before, inside and after its function and the stop request may arrive at any point; for all three acknowledge types; Y, and X for the outcomes the property quantifies over, is acknowledged exactly once and never early; an X outside them (raising hook, CancelledError from the backend, junk) may end un-acknowledged but never with an early or second ack; also with wait_tasks_timeout elapsing while Y (async / sync) is inside its function."
         " Repeated faults (mc/fault_overlap.py::repeats): the same fault k times in a row (k in 3..6; thorough up to 10) on one worker, then healthy messages - a counter, pool, budget or throttle inside the worker must not change what happens at the k-th occurrence. For all three acknowledge types."
+        " The acknowledge type given as the enum member, as a plain string and as a str subclass."
     ),
     "assumptions": [
         "asyncio semantics as implemented by BaseEventLoop (only clock/selector replaced)",
@@ -165,6 +166,13 @@ def scenarios(tier: str) -> List[Dict[str, Any]]:
             for nm in ("return", "raise"):
                 sc = _sc(at, [_msg(nm, "sync", False), _msg("return", "async", True), _msg("return", "sync", False)], 0, False, a=2)
                 sc.update({"stream": "infinite", "stop": False, "N": n_, "P": 1})
+                out.append(sc)
+    # the acknowledge type given as a plain string / str subclass (AcknowledgeType is a str enum)
+    for at in ACK_TYPES[:3]:
+        for form in ("str", "strsub"):
+            for nm in (names if tier == "thorough" else names[:4]):
+                sc = _sc(at, [_msg(nm, "async", True)], 0, False)
+                sc["ack_type_form"] = form
                 out.append(sc)
     out += fault_family(tier)
     if tier == "thorough":
